@@ -4,6 +4,7 @@ Abort is the "cancel and recover" operation; the reference model is a fresh
 simulated session that was given only the completed toplevel work P and then
 the same probes."""
 import json
+import re
 
 import common
 import sites
@@ -174,7 +175,9 @@ class C10(SessimProp):
         line = final_response(rd)
         oc = outcome(line)
         if oc[0] == "cmd":
-            oc = ("cmd", oc[1])
+            # syntax ids count everything the session has parsed so far (the aborted requests too):
+            # they identify nodes, they are not session state
+            oc = ("cmd", re.sub(r"SyntaxId\(\d+\)", "SyntaxId(N)", oc[1]) if isinstance(oc[1], str) else oc[1])
         return {"outcome": list(oc), "frame": frame_of(line), "printed": printed(rd),
                 "n": len(worker_responses(rd)), "panic": rd.get("panic")}
 
